@@ -3,6 +3,7 @@ package zz_vfc20
 import (
 	"github.com/paulmach/orb"
 	"github.com/paulmach/orb/clip"
+	"github.com/paulmach/orb/geo"
 	"github.com/paulmach/orb/maptile"
 	"github.com/paulmach/orb/maptile/tilecover"
 	"github.com/paulmach/orb/planar"
@@ -227,6 +228,10 @@ func vfC20Agree(c int) {
 		vfAssert("collection-length-sum", planar.Length(col) == length)
 	}
 
+	// planar / geo length and planar area of every kind against the kind's own definition
+	// (path length of the vertices as given; a bound is its ring; outer ring minus holes)
+	vfMeasures(cg())
+
 	// tile cover: generic vs typed
 	z := maptile.Zoom(2)
 	tg, err := tilecover.Geometry(cg(), z)
@@ -259,6 +264,113 @@ func vfC20Agree(c int) {
 			vfAssert("tilecover-member-agrees", tt[k])
 		}
 	}
+}
+
+func vfPathLen(ps []orb.Point, df func(a, b orb.Point) float64) float64 {
+	sum := 0.0
+	for i := 1; i < len(ps); i++ {
+		sum += df(ps[i], ps[i-1])
+	}
+	return sum
+}
+
+func vfRefLength(g orb.Geometry, df func(a, b orb.Point) float64) float64 {
+	switch t := g.(type) {
+	case orb.LineString:
+		return vfPathLen(t, df)
+	case orb.Ring:
+		return vfPathLen(t, df)
+	case orb.MultiLineString:
+		sum := 0.0
+		for _, l := range t {
+			sum += vfPathLen(l, df)
+		}
+		return sum
+	case orb.Polygon:
+		sum := 0.0
+		for _, r := range t {
+			sum += vfPathLen(r, df)
+		}
+		return sum
+	case orb.MultiPolygon:
+		sum := 0.0
+		for _, p := range t {
+			sum += vfRefLength(p, df)
+		}
+		return sum
+	case orb.Bound:
+		return vfPathLen(t.ToRing(), df)
+	case orb.Collection:
+		sum := 0.0
+		for _, m := range t {
+			sum += vfRefLength(m, df)
+		}
+		return sum
+	}
+	return 0
+}
+
+func vfShoelace(r orb.Ring) float64 {
+	// the ring closed implicitly, area taken positive
+	n := len(r)
+	if n < 3 {
+		return 0
+	}
+	s := 0.0
+	for i := 0; i < n; i++ {
+		j := (i + 1) % n
+		s += (r[i][0]-r[0][0])*(r[j][1]-r[0][1]) - (r[j][0]-r[0][0])*(r[i][1]-r[0][1])
+	}
+	if s < 0 {
+		s = -s
+	}
+	return s / 2
+}
+
+func vfRefArea(g orb.Geometry) float64 {
+	switch t := g.(type) {
+	case orb.Ring:
+		return vfShoelace(t)
+	case orb.Polygon:
+		if len(t) == 0 {
+			return 0
+		}
+		a := vfShoelace(t[0])
+		for _, h := range t[1:] {
+			a -= vfShoelace(h)
+		}
+		return a
+	case orb.MultiPolygon:
+		a := 0.0
+		for _, p := range t {
+			a += vfRefArea(p)
+		}
+		return a
+	case orb.Bound:
+		return (t.Max[0] - t.Min[0]) * (t.Max[1] - t.Min[1])
+	}
+	return 0
+}
+
+func vfNear(a, b float64) bool {
+	d := a - b
+	if d < 0 {
+		d = -d
+	}
+	m := a
+	if m < 0 {
+		m = -m
+	}
+	return d <= 1e-9*(1+m)
+}
+
+func vfMeasures(g orb.Geometry) {
+	if _, isC := g.(orb.Collection); !isC {
+		vfAssert("planar-area-agrees-with-kind", vfNear(planar.Area(g), vfRefArea(g)))
+	}
+	vfAssert("planar-length-agrees-with-kind", vfNear(planar.Length(g), vfRefLength(g, planar.Distance)))
+	vfAssert("geo-length-agrees-with-kind", vfNear(geo.Length(g), vfRefLength(g, geo.Distance)))
+	vfAssert("geo-haversine-length-agrees-with-kind", vfNear(geo.LengthHaversine(g), vfRefLength(g, geo.DistanceHaversine)))
 }
 
 func vfUnwrapMP(mp orb.MultiPoint) orb.Geometry {
